@@ -123,6 +123,9 @@ func expectedLiteral(v ssa.Value) (issuer ssa.Value, timeNow bool, fields []stri
 		if call, isCall := vs[0].(*ssa.Call); isCall && calleeName(call) == "time.Now" {
 			timeNow = true
 		}
+	} else if len(vs) == 0 {
+		// go-jose v4: a zero Expected.Time means "validate against time.Now()"
+		timeNow = true
 	}
 	return issuer, timeNow, fields, true
 }
@@ -210,6 +213,8 @@ func lenAtLeast(isX func(ssa.Value) bool, min int64) Guard {
 				return n >= min-1
 			case token.EQL:
 				return n >= min
+			case token.NEQ:
+				return n == 0 && min <= 1
 			}
 			return false
 		}
@@ -225,6 +230,8 @@ func lenAtLeast(isX func(ssa.Value) bool, min int64) Guard {
 				return n >= min-1
 			case token.EQL:
 				return n >= min
+			case token.NEQ:
+				return n == 0 && min <= 1
 			}
 		}
 		return false
